@@ -122,3 +122,50 @@ Example c13_ledger_example :
   keys (items (state_after (new_cache 2) ops)) = [1; 3] /\
   last_put 1 ops None = Some 12.
 Proof. vm_compute. repeat split; reflexivity. Qed.
+
+(* ---- element-level model (Concrete.v): the list of *list.Element, the *Entry each one points
+   to, and the Go map key -> element are separate objects, as in cache.go ---- *)
+From FV Require Import C13.Concrete C13.ProofsConcrete.
+
+(* the key index agrees with the list after every history: elements are in the list once, each
+   has its entry, no two hold the same key, the map sends exactly the keys held by elements of
+   the list — each to the element holding it — with one binding per key *)
+Theorem c13_index_agrees_with_list : forall size ops, Rep (cstate_after (cnew size) ops).
+Proof. exact rep_reachable. Qed.
+Print Assumptions c13_index_agrees_with_list.
+
+(* hence c.items[key] finds what a search of the list for the key finds *)
+Theorem c13_index_lookup_is_list_search : forall size ops k,
+  let cs := cstate_after (cnew size) ops in
+  option_map (fun id => sget id (store cs)) (ifind k (idx cs)) = pfind k (abs cs).
+Proof. exact index_lookup. Qed.
+Print Assumptions c13_index_lookup_is_list_search.
+
+(* one operation: from related states (invariant, same (key, value) list, same capacity) the
+   element-level model and Model.step return the same value and the same callback arguments
+   (Purge ranges over the map: same multiset) and reach related states *)
+Theorem c13_concrete_step_refines_model : forall cs c o, CR cs c ->
+  snd (fst (cstep cs o)) = snd (fst (step c o)) /\
+  log_equiv o (snd (cstep cs o)) (snd (step c o)) /\
+  CR (fst (fst (cstep cs o))) (fst (fst (step c o))).
+Proof. exact sim_step. Qed.
+Print Assumptions c13_concrete_step_refines_model.
+
+(* every history from the constructor *)
+Theorem c13_concrete_refines_model : forall size ops,
+  same_obs ops (snd (crun (cnew size) ops)) (snd (run (new_cache size) ops)) /\
+  abs (cstate_after (cnew size) ops) = map kv (items (state_after (new_cache size) ops)) /\
+  ccap (cstate_after (cnew size) ops) = cap (state_after (new_cache size) ops).
+Proof. exact concrete_refines. Qed.
+Print Assumptions c13_concrete_refines_model.
+
+(* non-vacuity: a history with a re-put (value overwritten in place), an eviction, a removal, a
+   resize below the size and a purge; the element-level run equals the model's (here Purge's log
+   too: one entry), ids are never reused and the map holds one binding per element *)
+Example c13_concrete_example :
+  let ops := [Put 1 10; Put 2 20; Put 1 11; Get 2; Put 3 30; Keys; Remove 2; Put 4 40; Put 5 50; Resize 1; Purge] in
+  snd (crun (cnew 2) ops) = snd (run (new_cache 2) ops) /\
+  map snd (snd (crun (cnew 2) ops)) = [[]; []; []; []; [(1, 11)]; []; [(2, 20)]; []; [(3, 30)]; [(4, 40)]; [(5, 50)]] /\
+  let cs := cstate_after (cnew 3) [Put 1 10; Put 2 20; Put 1 11; Put 3 30; Put 4 40] in
+  lst cs = [3; 2; 0]%nat /\ idx cs = [(4, 3%nat); (3, 2%nat); (1, 0%nat)] /\ abs cs = [(4, 40); (3, 30); (1, 11)] /\ next cs = 4%nat.
+Proof. vm_compute. repeat split; reflexivity. Qed.
